@@ -31,7 +31,7 @@ if [ "$id" = "C18" ] && [ "$mode" != "replay" ]; then
   races=$(grep -c 'WARNING: DATA RACE' "$ovl/race.log")
   python3 - "$ovl/race.json" "$races" "$rrc" <<'PY'
 import json,sys
-json.dump({"race_pass":{"build":"-race -tags 'verif decimal_pure_go'","scenarios":11,"rounds":30,"gomaxprocs":[2,16],"data_races_reported":int(sys.argv[2]),"exit":int(sys.argv[3])}},open(sys.argv[1],"w"))
+json.dump({"race_pass":{"build":"-race -tags 'verif decimal_pure_go'","scenarios":16,"rounds":30,"gomaxprocs":[2,16],"data_races_reported":int(sys.argv[2]),"exit":int(sys.argv[3])}},open(sys.argv[1],"w"))
 PY
   export VERIF_EXTRA_EVIDENCE="$ovl/race.json"
   if [ "$races" -gt 0 ]; then
